@@ -116,7 +116,7 @@ def _attribute(msg, ranges_by_pkg, pkg):
     return None
 
 
-def run_family(name, progs, shards=None, extra_header="", extra_deps="", timeout=3000, keep_going=True):
+def run_family(name, progs, shards=None, extra_header="", extra_deps="", timeout=3000, keep_going=True, deps_override=None, header_override=None):
     """Build and run a family. Returns FamilyResult. Raises MachineryError on harness problems."""
     res = FamilyResult()
     if not progs:
@@ -150,7 +150,7 @@ def run_family(name, progs, shards=None, extra_header="", extra_deps="", timeout
     lock_dst = os.path.join(fam_dir, "Cargo.lock")
     if not os.path.exists(lock_dst):
         shutil.copyfile(lock_src, lock_dst)
-    deps = DEPS.format(repo=REPO, verif=VERIF) + extra_deps
+    deps = (deps_override or DEPS).format(repo=REPO, verif=VERIF) + extra_deps
     target = os.path.join(TARGET, "e2")
     excluded = set()
     t0 = time.time()
